@@ -876,6 +876,17 @@ func (e *jsonEnv) docCasesFor(rng *PRNG, s *JS, n int) []docCase {
 				bs, _ := json.Marshal(c)
 				out = append(out, docCase{"drop:" + p.Name, string(bs)})
 			}
+			if m[p.Name] != nil && e.resolve(p.S).Kind == "arr" && !e.resolve(p.S).Nullable && rng.Chance(1, 2) {
+				// JSON null where a (non-nullable) array is declared: the inline form and the form by
+				// reference to an array component must treat it alike
+				c := map[string]any{}
+				for k, v := range m {
+					c[k] = v
+				}
+				c[p.Name] = nil
+				bs, _ := json.Marshal(c)
+				out = append(out, docCase{"null:" + p.Name, string(bs)})
+			}
 			if m[p.Name] != nil && e.resolve(p.S).Kind != "any" && rng.Chance(1, 2) {
 				c := map[string]any{}
 				for k, v := range m {
